@@ -8989,6 +8989,13 @@ class SVG(Group):
         viewbox = values.get(SVG_ATTR_VIEWBOX)
         par = values.get(SVG_ATTR_PRESERVEASPECTRATIO)
         self.viewbox = Viewbox(viewbox, par) if viewbox is not None else None
+        if self.viewbox is not None and None in (
+            self.viewbox.x,
+            self.viewbox.y,
+            self.viewbox.width,
+            self.viewbox.height,
+        ):
+            self.viewbox = None  # A viewBox without its four numbers is in error and ignored.
 
     def get_element_by_id(self, id):
         return self.objects.get(id)
